@@ -433,6 +433,7 @@ fn unpack_program(data: &[u32]) -> Vec<E> {
     ));
     let n_stmts = 2 + s.below(5);
     let mut counter = 0;
+    let mut all_names: Vec<String> = vec![];
     for _ in 0..n_stmts {
         let len = s.below(6) as usize;
         let items: Vec<E> = (0..len).map(|i| E::Int(i as i64 + 1)).collect();
@@ -452,10 +453,20 @@ fn unpack_program(data: &[u32]) -> Vec<E> {
             for _ in 0..n_targets {
                 if s.chance(20) {
                     targets.push(id("_"));
+                } else if !all_names.is_empty() && s.chance(40) {
+                    // a target that already holds a value: a missing element must overwrite it with null
+                    let n: String = all_names[s.below(all_names.len() as u32) as usize].clone();
+                    if !names.contains(&n) {
+                        names.push(n.clone());
+                        targets.push(id(&n));
+                    } else {
+                        targets.push(id("_"));
+                    }
                 } else {
                     counter += 1;
                     let n = format!("t{counter}");
                     names.push(n.clone());
+                    all_names.push(n.clone());
                     targets.push(id(&n));
                 }
             }
@@ -476,14 +487,22 @@ fn unpack_program(data: &[u32]) -> Vec<E> {
             let mut list = vec![];
             for _ in 0..rows {
                 let w = s.below(4) as usize;
-                list.push(E::Tuple((0..w).map(|i| E::Int(i as i64)).collect()));
+                let row: Vec<E> = (0..w).map(|i| E::Int(i as i64 + 10 * list.len() as i64)).collect();
+                list.push(if s.chance(50) { E::Tuple(row) } else { E::List(row) });
             }
             counter += 2;
             let (a, b) = (format!("t{}", counter - 1), format!("t{counter}"));
+            let second_wild = s.chance(20);
+            let mut parts = vec![SPart::Lit("row ".into()), SPart::Expr(id(&a), None)];
+            if !second_wild {
+                // the arguments keep their values from the previous iteration unless every row rebinds them
+                parts.push(SPart::Lit(" ".into()));
+                parts.push(SPart::Expr(id(&b), None));
+            }
             prog.push(E::For(
-                vec![Pat::Id(a.clone(), None), if s.chance(20) { Pat::Wild(None, None) } else { Pat::Id(b.clone(), None) }],
+                vec![Pat::Id(a.clone(), None), if second_wild { Pat::Wild(None, None) } else { Pat::Id(b.clone(), None) }],
                 bx(E::List(list)),
-                vec![E::Print(vec![E::Str(vec![SPart::Lit("row ".into()), SPart::Expr(id(&a), None)])])],
+                vec![E::Print(vec![E::Str(parts)])],
             ));
         }
     }
